@@ -52,6 +52,19 @@ TuplesFull == TuplesQuick \cup {VTuple(<<VFloat(FOneP), VStr(Sa), VBool(TRUE), V
                                 VTuple(<<VFloat(FNaN), VInt(MinInt)>>)}
 Tuples == IF PoolName = "quick" THEN TuplesQuick ELSE TuplesFull
 
+\* smaller pools for argument pairs and triples of the builtin model
+PairInts == {MinInt, MaxInt, Zero, FromInt(1), FromInt(-1), FromInt(2), FromInt(3), FromInt(63), FromInt(64), P(Pow2I(53), 1)}
+PairFloats == {FNegZero, FOneP, FMinusTwoHalf, FTenth, F2p53, F1e19, FInf, FNaN}
+PairPool == {VInt(i) : i \in (IF PoolName = "quick" THEN PairInts ELSE Ints)}
+            \cup {VFloat(f) : f \in (IF PoolName = "quick" THEN PairFloats ELSE Floats)}
+            \cup {VStr(s) : s \in (IF PoolName = "quick" THEN {<<>>, Sab, SMixed} ELSE Strings)}
+            \cup {VBool(TRUE), VEmpty, VTuple(<<VNat(1), VNat(2)>>), VTuple(<<VTuple(<<VNat(1)>>), VStr(Sa)>>)}
+            \cup (IF PoolName = "quick" THEN {} ELSE {VBool(FALSE), VTuple(<<>>), VTuple(<<VFloat(FOneP), VStr(Sa), VBool(TRUE), VEmpty>>)})
+TriplePool == {VInt(Zero), VInt(FromInt(1)), VInt(FromInt(3)), VInt(FromInt(-1)), VFloat(FOneHalf), VStr(SMixed),
+               VBool(TRUE), VBool(FALSE)}
+              \cup (IF PoolName = "quick" THEN {} ELSE {VInt(MaxInt), VInt(FromInt(2)), VFloat(FNaN), VStr(Sab), VEmpty,
+                                                      VTuple(<<VNat(1), VNat(2)>>)})
+
 Pool == {VInt(i) : i \in Ints} \cup {VFloat(f) : f \in Floats} \cup {VStr(s) : s \in Strings}
         \cup {VBool(TRUE), VBool(FALSE), VEmpty} \cup Tuples
 =============================================================================
